@@ -25,6 +25,11 @@ pub struct Case {
     /// the last entry repeats. Empty: every process follows `proc`.
     #[serde(default)]
     pub later: Vec<ProcPlan>,
+    /// Earlier calls of the same job in the same process, each with the plan of its (first)
+    /// formatter process: what a previous call's formatter did must not reach into the next call
+    /// (latches, leftover buffers, unreaped or reused children). Every call is judged.
+    #[serde(default)]
+    pub earlier_calls: Vec<ProcPlan>,
 }
 
 #[derive(Debug, Clone, Serialize, Deserialize)]
@@ -269,8 +274,9 @@ pub fn reference_for(cache: &RefCache, job: &Job) -> Option<RefProgram> {
 // Backend: every spawn of the call gets a simulated child following the plan.
 
 struct C19Backend {
-    plan: ProcPlan,
-    later: Vec<ProcPlan>,
+    plan: Mutex<ProcPlan>,
+    later: Mutex<Vec<ProcPlan>>,
+    spawns_before_this_call: AtomicU64,
     reference: Arc<String>,
     children: Mutex<Vec<Arc<SimChild>>>,
     programs: Mutex<Vec<String>>,
@@ -286,15 +292,17 @@ impl Backend for C19Backend {
         let nth = {
             let mut programs = self.programs.lock().unwrap();
             programs.push(spec.program.to_string_lossy().into_owned());
-            programs.len() - 1
+            programs.len() - 1 - self.spawns_before_this_call.load(Ordering::Relaxed) as usize
         };
-        let plan = if nth == 0 || self.later.is_empty() {
-            &self.plan
+        let later = self.later.lock().unwrap();
+        let plan = if nth == 0 || later.is_empty() {
+            self.plan.lock().unwrap().clone()
         } else {
-            &self.later[(nth - 1).min(self.later.len() - 1)]
+            later[(nth - 1).min(later.len() - 1)].clone()
         };
+        drop(later);
         Some(
-            procsim::spawn(plan, spec, self.reference.clone(), None).map(|child| {
+            procsim::spawn(&plan, spec, self.reference.clone(), None).map(|child| {
                 self.children.lock().unwrap().push(child.clone());
                 child as Arc<dyn ChildIo>
             }),
@@ -426,6 +434,17 @@ pub fn classify_case(case: &Case) -> (bool, Vec<&'static str>) {
             kinds.extend(k);
         }
     }
+    if !case.earlier_calls.is_empty() {
+        let mut earlier = Vec::new();
+        for plan in &case.earlier_calls {
+            let (e, k) = classify(plan);
+            eligible &= e;
+            earlier.extend(k);
+        }
+        earlier.push("then_in_a_later_call");
+        earlier.extend(kinds);
+        kinds = earlier;
+    }
     (eligible, kinds)
 }
 
@@ -457,8 +476,9 @@ pub fn run_case(case: &Case, reference: Option<&RefProgram>, want_log: bool) -> 
         .spawn(move || {
             crate::seams::set_thread_entropy(Some(entropy));
             let backend = Arc::new(C19Backend {
-                plan: case.proc.clone(),
-                later: case.later.clone(),
+                plan: Mutex::new(case.proc.clone()),
+                later: Mutex::new(case.later.clone()),
+                spawns_before_this_call: AtomicU64::new(0),
                 reference: reference.text.clone(),
                 children: Mutex::new(Vec::new()),
                 programs: Mutex::new(Vec::new()),
@@ -493,6 +513,27 @@ pub fn run_case(case: &Case, reference: Option<&RefProgram>, want_log: bool) -> 
             let mut options = case.job.options;
             options.rustfmt = true;
             let _ = crate::take_panic_location();
+            // earlier calls in the same process, each judged like the main one
+            let mut earlier_failure: Option<(usize, String, Option<Failure>)> = None;
+            for (k, plan) in case.earlier_calls.iter().enumerate() {
+                *backend.plan.lock().unwrap() = plan.clone();
+                *backend.later.lock().unwrap() = Vec::new();
+                backend
+                    .spawns_before_this_call
+                    .store(backend.programs.lock().unwrap().len() as u64, Ordering::Relaxed);
+                let r = std::panic::catch_unwind(std::panic::AssertUnwindSafe(|| {
+                    corpus::run_job(&source, case.job.include_path.as_deref(), options)
+                }));
+                let (class, failure) = judge(r, &reference, None);
+                if failure.is_some() && earlier_failure.is_none() {
+                    earlier_failure = Some((k, class, failure));
+                }
+            }
+            *backend.plan.lock().unwrap() = case.proc.clone();
+            *backend.later.lock().unwrap() = case.later.clone();
+            backend
+                .spawns_before_this_call
+                .store(backend.programs.lock().unwrap().len() as u64, Ordering::Relaxed);
             let result = std::panic::catch_unwind(std::panic::AssertUnwindSafe(|| {
                 corpus::run_job(&source, case.job.include_path.as_deref(), options)
             }));
@@ -508,10 +549,10 @@ pub fn run_case(case: &Case, reference: Option<&RefProgram>, want_log: bool) -> 
                 .collect();
             let programs = backend.programs.lock().unwrap().clone();
             let points = backend.points.load(Ordering::Relaxed);
-            (result, location, reports, programs, points, reference)
+            (result, location, reports, programs, points, reference, earlier_failure)
         })
         .expect("spawn run thread");
-    let (result, location, reports, programs, points, reference) =
+    let (result, location, reports, programs, points, reference, earlier_failure) =
         handle.join().expect("run thread itself must not panic");
 
     let mut stats = ProcStats::default();
@@ -535,7 +576,15 @@ pub fn run_case(case: &Case, reference: Option<&RefProgram>, want_log: bool) -> 
         Ok(Outcome::Ok { text }) => text.len(),
         _ => 0,
     };
-    let (outcome_class, mut failure) = judge(result, &reference, Some(stats.format_ok > 0));
+    let (mut outcome_class, mut failure) = judge(result, &reference, Some(stats.format_ok > 0));
+    if let Some((k, class, f)) = earlier_failure {
+        // an earlier call of the sequence already broke the oracle: report that one
+        outcome_class = class;
+        failure = f.map(|mut f| {
+            f.detail = format!("in earlier call #{k} of the same process: {}", f.detail);
+            f
+        });
+    }
     if let Some(f) = failure.as_mut() {
         if f.location.is_none() && f.class.starts_with("panic:") {
             f.location = location;
@@ -1007,6 +1056,27 @@ pub fn gen_case(rng: &mut Rng) -> Case {
         }
         later.push(second);
     }
+    // One run in six is a sequence of calls in one process: one or two earlier calls whose
+    // formatter misbehaves (or not), then the call described above.
+    let mut earlier_calls = Vec::new();
+    if rng.chance(170) {
+        for _ in 0..rng.usize(1, 2) {
+            let mut plan = ProcPlan::well_behaved();
+            plan.stdin_cap = proc.stdin_cap;
+            plan.stdout_cap = proc.stdout_cap;
+            plan.chunk = proc.chunk;
+            match rng.below(8) {
+                0 => plan.spawn = SpawnPlan::NotFound,
+                1 => plan.script = vec![Op::Exit(1)],
+                2 => plan.script = vec![Op::ReadToEof, Op::Exit(0)],
+                3 => plan.script = vec![Op::ReadToEof, Op::EmitRef(rng.range(1, 999) as u32), Op::Flush, Op::Kill(libc::SIGKILL)],
+                4 => plan.script = vec![Op::Read(rng.usize(1, 5000)), Op::Kill(libc::SIGTERM)],
+                5 => plan.script = vec![Op::ReadToEof, Op::Stderr(300), Op::Exit(2)],
+                _ => {}
+            }
+            earlier_calls.push(plan);
+        }
+    }
     Case {
         job: Job {
             shader,
@@ -1015,6 +1085,7 @@ pub fn gen_case(rng: &mut Rng) -> Case {
         },
         proc,
         later,
+        earlier_calls,
     }
 }
 
@@ -1096,6 +1167,7 @@ pub fn systematic_cases() -> Vec<Case> {
         options.rustfmt = true;
         options.bytemuck_host = true;
         out.push(Case {
+            earlier_calls: vec![],
             later: vec![],
             job: Job {
                 shader: HUGE,
@@ -1118,6 +1190,7 @@ pub fn systematic_cases() -> Vec<Case> {
             let mut options = Opts::plain();
             options.rustfmt = true;
             out.push(Case {
+                earlier_calls: vec![],
                 later: vec![],
                 job: Job {
                     shader: ShaderRef::Dense { kb: 200, pad },
@@ -1146,6 +1219,7 @@ pub fn systematic_cases() -> Vec<Case> {
                     options.bytemuck_host = true;
                     let retry_variant = cap == 64 && *op_cost == 3;
                     out.push(Case {
+                        earlier_calls: vec![],
                         later: if retry_variant {
                             // the interleaved small-capacity variant doubles as the "flaky formatter"
                             // block: whatever the first process did, a second one would be healthy
@@ -1232,6 +1306,26 @@ pub fn minimise(case: &Case, class: &str, cache: &RefCache) -> (Case, u32) {
     }
 
     {
+        let mut cand = best.clone();
+        cand.earlier_calls.clear();
+        try_accept(cand, &mut best);
+        // a failure inside an earlier call: that call can be the last one of the sequence
+        while let Some(last) = best.earlier_calls.last().cloned() {
+            let mut cand = best.clone();
+            cand.earlier_calls.pop();
+            cand.proc = last;
+            cand.later.clear();
+            if !try_accept(cand, &mut best) {
+                break;
+            }
+        }
+        while best.earlier_calls.len() > 1 {
+            let mut cand = best.clone();
+            cand.earlier_calls.remove(0);
+            if !try_accept(cand, &mut best) {
+                break;
+            }
+        }
         let mut cand = best.clone();
         cand.later.clear();
         try_accept(cand, &mut best);
